@@ -82,6 +82,8 @@ def run(tier, seed):
     if tier == "quick": srcs = [s for i, s in enumerate(srcs) if i % 3 == 0 or "huge" in s or "{=html}" in s]
     # sources of a few bytes: the archive writer stores members of up to three bytes without compressing them, and must say so in their headers
     srcs += ["a\n", "a", "ab\n", "abc", "abcd\n", "\n"]
+    # an asset's address as the very last bytes of the source (no final newline): the text the bundle carries must be rewritten there too
+    srcs += ["# One\n\n![alt][pic]\n\n[pic]: small.png", "text\n\n![alt](small.png)", "Title: T\ncss: style.css\n\ntext ![a](big.png) and ![b][r]\n\n[r]: small.png"]
     exe = build.build_harness("asan"); cli = build.build_cli()
     wd = scratch("c09")
     trace = []; problems = []
